@@ -95,7 +95,7 @@ def _classify(binary, corpus_dirs):
 
 def run_fuzz_part(rep, tier, pid):
     plan = PLAN.get(pid, [])
-    if not plan or os.environ.get("VERIF_PKG_OVERRIDE"):
+    if not plan or os.environ.get("VERIF_PKG_OVERRIDE") or os.environ.get("VERIF_SKIP_FUZZ"):
         return
     try:
         bins = build.ensure_fuzz()
